@@ -1895,12 +1895,18 @@ func (f *ndFunc) metaValue(r ast.Expr, look func(string) []ndMember) []ndMember 
 			}
 		}
 	case *ast.CompositeLit:
-		for _, el := range x.Elts {
-			if kv, ok := el.(*ast.KeyValueExpr); ok {
+		// the flag may be given in a nested literal: MetaData{CiphertextMetaData: CiphertextMetaData{IsNTT: true}}
+		var found ast.Expr
+		ast.Inspect(x, func(n ast.Node) bool {
+			if kv, ok := n.(*ast.KeyValueExpr); ok && found == nil {
 				if id, ok := kv.Key.(*ast.Ident); ok && id.Name == "IsNTT" {
-					return f.flagValue(kv.Value, look)
+					found = kv.Value
 				}
 			}
+			return found == nil
+		})
+		if found != nil {
+			return f.flagValue(found, look)
 		}
 		if len(x.Elts) == 0 || func() bool { _, ok := x.Elts[0].(*ast.KeyValueExpr); return ok }() {
 			return []ndMember{{kind: 'C'}}
